@@ -1,33 +1,34 @@
 #!/bin/bash
-# tools/seedsweep.sh [-j N] [-t tier] [seed-name ...]
+# tools/seedsweep.sh [-j N] [-t tier] [-d dir] [seed-name ...]
+# (-d benign: the behaviour-preserving changes under /verif/benign; there the expected outcome is rc=0 for every one)
 # For every seeded defect under /verif/seeded (or the named ones): scratch worktree of /repo under /tmp,
 # apply patch.diff, run the quick check of the seed's own property (prefix of the seed name) plus the extra
 # checks listed in meta.json["also_checks"], record the outcome in /tmp/seedsweep/<seed>.txt and print a table.
 # The worktree is removed afterwards; evidence/ is restored from git at the end (the sweep is not a
 # registered check and must not leave mutated-tree evidence behind).
-jobs=8; tier=quick
-while getopts "j:t:" o; do case $o in j) jobs=$OPTARG;; t) tier=$OPTARG;; esac; done
+jobs=8; tier=quick; dir=seeded
+while getopts "j:t:d:" o; do case $o in j) jobs=$OPTARG;; t) tier=$OPTARG;; d) dir=$OPTARG;; esac; done
 shift $((OPTIND-1))
 cd /verif || exit 2
-seeds=("$@"); [ ${#seeds[@]} -eq 0 ] && seeds=($(cd seeded && ls -d C*-*))
-out=/tmp/seedsweep; rm -rf $out; mkdir -p $out
+seeds=("$@"); [ ${#seeds[@]} -eq 0 ] && seeds=($(cd $dir && ls -d C*-*))
+out=/tmp/seedsweep-$dir; rm -rf $out; mkdir -p $out; export out dir
 one() {
   s=$1; tier=$2; id=${s%%-*}
-  wt=/tmp/seedsweep-wt-$s
+  wt=/tmp/seedsweep-wt-$dir-$s
   git -C /repo worktree remove --force $wt 2>/dev/null
-  git -C /repo worktree add -q $wt HEAD || { echo "$s worktree-failed" > /tmp/seedsweep/$s.txt; return; }
-  if ! git -C $wt apply /verif/seeded/$s/patch.diff 2>/dev/null; then
-    echo "$s $id patch-does-not-apply" > /tmp/seedsweep/$s.txt
+  git -C /repo worktree add -q $wt HEAD || { echo "$s worktree-failed" > $out/$s.txt; return; }
+  if ! git -C $wt apply /verif/$dir/$s/patch.diff 2>/dev/null; then
+    echo "$s $id patch-does-not-apply" > $out/$s.txt
   else
-    ids="$id $(python3 -c "import json,sys;print(' '.join(json.load(open('/verif/seeded/$s/meta.json')).get('also_checks',[])))" 2>/dev/null)"
+    ids="$id $(python3 -c "import json,sys;print(' '.join(json.load(open('/verif/$dir/$s/meta.json')).get('also_checks',[])))" 2>/dev/null)"
     line="$s"
     for c in $ids; do
-      log=/tmp/seedsweep/$s.$c.log
+      log=$out/$s.$c.log
       VERIF_REPO=$wt /verif/check $c $tier > $log 2>&1; rc=$?
       nv=$(grep -c '^VIOLATION' $log); nf=$(grep '^VIOLATION' $log | grep -c 'no-failing-input-found')
       line="$line | $c rc=$rc viol=$nv nofail=$nf"
     done
-    echo "$line" > /tmp/seedsweep/$s.txt
+    echo "$line" > $out/$s.txt
   fi
   git -C /repo worktree remove --force $wt 2>/dev/null
 }
@@ -37,5 +38,5 @@ git -C /verif checkout -q -- evidence 2>/dev/null
 cat $out/*.txt | sort
 # keep the last full sweep (all seeds) as a committed record
 if [ $# -eq 0 ]; then
-  { echo "# last full sweep: $(date -u +%FT%TZ)  tier=$tier  /repo HEAD $(git -C /repo rev-parse --short HEAD)  /verif HEAD $(git -C /verif rev-parse --short HEAD)"; cat $out/*.txt | sort; } > /verif/seeded/SWEEP.txt
+  { echo "# last full sweep: $(date -u +%FT%TZ)  tier=$tier  /repo HEAD $(git -C /repo rev-parse --short HEAD)  /verif HEAD $(git -C /verif rev-parse --short HEAD)"; cat $out/*.txt | sort; } > /verif/$dir/SWEEP.txt
 fi
